@@ -170,6 +170,27 @@ def inputs(ctx):
                                     "cap": d if where == "cap" else None, "lang": d if where == "lang" else None})
                         n += 1
 
+    # two captions whose layouts differ only beyond the second decimal: each keeps its own layout
+    # (as printed: two decimals), none falls back to the default region
+    for a, b in (("30", "30.001"), ("33.333", "33.334"), ("66.666", "66.667"), ("12.344", "12.34"), ("0", "0.004")):
+        for part in ("o", "e", "p"):
+            def lay(v):
+                d = {"o": [["10", "%"], ["20", "%"]], "e": [["50", "%"], ["30", "%"]]}
+                if part == "o":
+                    d["o"] = [[v, "%"], ["20", "%"]]
+                elif part == "e":
+                    d["e"] = [["50", "%"], [v if v != "0" else "25", "%"]]
+                else:
+                    d["p"] = [["1", "%"], [v, "%"], ["1", "%"], ["1", "%"]]
+                return d
+            for order in ((a, b), (b, a)):
+                desc = {"langs": [{"lang": "en-US", "layout": None, "caps": [
+                    {"s": 1000000, "e": 2000000, "layout": lay(order[0]), "nodes": [["t", "first"]]},
+                    {"s": 3000000, "e": 4000000, "layout": lay(order[1]), "nodes": [["t", "second"]]},
+                    {"s": 5000000, "e": 6000000, "nodes": [["t", "third"]]}]}], "layout": None}
+                ins.append({"id": "n%d" % n, "k": "dfxprt", "set": desc, "opts": "identity", "round2": True})
+                n += 1
+
     def rnd_layout():
         d = {}
         x, y = rng.randrange(0, 6000) / 100, rng.randrange(0, 6000) / 100
@@ -202,6 +223,30 @@ def inputs(ctx):
     return ins
 
 
+def _round2(desc):
+    """the description with every size as DFXP prints it (two decimals)"""
+    import copy
+    d = copy.deepcopy(desc)
+
+    def fix(l):
+        if not l:
+            return
+        for key in ("o", "e", "p"):
+            for sz in l.get(key) or []:
+                sz[0] = str(Fraction(repr(round(float(Fraction(sz[0])), 2))))
+    fix(d.get("layout"))
+    for lg in d["langs"]:
+        fix(lg.get("layout"))
+        for c in lg["caps"]:
+            fix(c.get("layout"))
+            for nd in c["nodes"]:
+                if nd[0] == "t" and len(nd) > 2:
+                    fix(nd[2])
+                elif nd[0] == "s" and len(nd) > 3:
+                    fix(nd[3])
+    return d
+
+
 def _abs_set(desc):
     langs = []
     for lg in desc["langs"]:
@@ -231,7 +276,7 @@ def execute(inp):
     from pycaption import CaptionNode
     if inp["k"] == "dfxprt":
         cs = build.caption_set(inp["set"])
-        rec = {"k": "dfxprt", "set": _abs_set(inp["set"]), "obs": [], "ok": False}
+        rec = {"k": "dfxprt", "set": _abs_set(_round2(inp["set"]) if inp.get("round2") else inp["set"]), "obs": [], "ok": False}
         kw = {"relativize": False, "fit_to_screen": False} if inp["opts"] == "identity" else {}
         try:
             out = pycaption.DFXPWriter(**kw).write(cs)
@@ -267,6 +312,15 @@ def execute(inp):
                 {"s": 1000000, "e": 2000000, "layout": inp["cap"], "nodes": nodes}]}]})
             rec["groups"] = [{"l": A_layout(g or inp["cap"] or inp["lang"]), "raw": ""} for g in inp["groups"]]
             rec["node_layouts"] = [A_layout(g) for g in inp["groups"]]
+        if "raw" not in inp:
+            # another writer object, with other options, converts an equal set first: what it
+            # worked out must not reach the writer under test
+            try:
+                pycaption.WebVTTWriter(fit_to_screen=True, video_width=640, video_height=360).write(build.caption_set(
+                    {"langs": [{"lang": "en-US", "layout": inp["lang"], "caps": [
+                        {"s": 1000000, "e": 2000000, "layout": inp["cap"], "nodes": nodes}]}]}))
+            except Exception:
+                pass
         out = pycaption.WebVTTWriter(fit_to_screen=False).write(cs)
         ok, cues = scan.scan_webvtt(out)
         first = None
